@@ -506,6 +506,13 @@ impl StateCheck for C17 {
                 out.typed_errors += 1;
                 return;
             }
+            // the same run when the three paths already hold a longer, older output: same files, byte for byte
+            let o2 = cli::run_env(&cli::sv(&["-c", "@c.csv", "-l", "PENINSULA", "--json", "@o.json", "--xml", "@o.xml", "--txt", "@o.txt"]), &[("c.csv", text.as_bytes())], &["o.json", "o.xml", "o.txt"], Some(7), Duration::from_secs(10), true);
+            out.regime("cli_run_over_existing_files");
+            if o2.status != Some(0) || o2.files != o.files {
+                let which: Vec<&str> = o.files.iter().zip(o2.files.iter()).filter(|(a, b)| a != b).map(|(a, _)| a.0.as_str()).collect();
+                out.viol("cli_output_files_replace_existing_ones", &[], cfg, format!("exit {:?}; files that differ from a run into fresh paths: {which:?} (lengths {:?})", o2.status, o2.files.iter().map(|f| f.1.as_ref().map(|b| b.len())).collect::<Vec<_>>()), "the same three files");
+            }
             let get = |n: &str| o.files.iter().find(|(k, _)| k == n).and_then(|(_, b)| b.clone()).map(|b| String::from_utf8_lossy(&b).to_string());
             match (get("o.json"), get("o.xml"), get("o.txt")) {
                 (Some(j), Some(x), Some(t)) => {
@@ -605,6 +612,8 @@ fn extra_letters() -> Vec<Letter> {
         Letter::one(u(Some(1), "CAL", "GASNATURAL", &[500_000_000, 100])),
         Letter::one(p(Some(0), "EL_INSITU", &[300_000_000, 900_000_000])),
         Letter::one(o(9, "REF", &[-300, -100])),
+        // demands whose annual sum is exactly zero (declared, so reported as 0.0 and not as absent)
+        Letter::one(d("REF", &[0, 0])),
     ]
 }
 
